@@ -177,7 +177,8 @@ func (c *BindingManager) RemoveBindingsForEntity(remoteEntity api.EntityRemoteIn
 
 	var newBindingEntries []*api.BindingEntry
 	for _, item := range c.bindingEntries {
-		if !reflect.DeepEqual(item.ClientFeature.Address().Entity, remoteEntity.Address().Entity) {
+		if item.ClientFeature.Device().Ski() != remoteEntity.Device().Ski() ||
+			!reflect.DeepEqual(item.ClientFeature.Address().Entity, remoteEntity.Address().Entity) {
 			newBindingEntries = append(newBindingEntries, item)
 			continue
 		}
